@@ -44,8 +44,8 @@ def units(tier, seed):
     # depth 2: mu -> v0 -> v1
     shapes2 = [((), ()), ((), (3,)), ((), (2, 3)), ((3,), (3,)), ((3,), (2, 3))]
     for l0 in LINKS:
-        cases = []
         for l1 in LINKS:
+            cases = []
             for sh in shapes2:
                 cases.append({"links": [l0, l1], "shapes": [list(sh[0]), list(sh[1])]})
             if l0 in ("direct", "calc"):
@@ -55,11 +55,13 @@ def units(tier, seed):
                 # multivariate root (event shape (3,)): value shapes (3,) and (2,3)
                 cases.append({"links": [l0, l1], "shapes": [[3], [3]], "mv": True})
                 cases.append({"links": [l0, l1], "shapes": [[2, 3], [2, 3]], "mv": True})
-        us.append({"cases": cases, "seeds": seeds})
+            us.append({"cases": cases, "seeds": seeds})
     # depth 3: mu -> v0 -> v1 -> v2, and diamond v2 <- (v0, v1)
     shapes3 = [((), (), ()), ((), (3,), (2, 3))] if tier == "quick" else [((), (), ()), ((), (3,), (2, 3)), ((3,), (3,), (3,)), ((), (), (3,))]
     for l1 in LINKS:
         for l2 in LINKS:
+            if tier == "quick" and l2 in ("calc2", "kw"):
+                continue  # as last link these are covered at depth 2 (and as middle link here)
             cases = []
             for l0 in (["calc"] if tier == "quick" else LINKS):
                 for sh in shapes3:
